@@ -220,7 +220,8 @@ func TestVerifC01(t *testing.T) {
 			for _, nw := range []int{49, 98, 103, 107} {
 				var ws []string
 				for k := 0; k < nw; k++ {
-					ws = append(ws, fmt.Sprintf("w%dq%s", k, words[k%len(words)]))
+					// distinct, purely alphabetic (digits would be cleaned away): base-26 suffix
+					ws = append(ws, words[k%len(words)]+"q"+string(rune('a'+k/26))+string(rune('a'+k%26)))
 				}
 				d := vdoc{"License", fmt.Sprintf("Distinct-%d", nw), "a.txt", []byte(strings.Join(ws, " ") + "\n")}
 				c.AddContent(d.cat, d.name, d.variant, d.data)
@@ -372,6 +373,65 @@ func TestVerifC04(t *testing.T) {
 			o.verdict("C04", "hist_cut", what == "", true, "hist_cut", map[string]interface{}{"what": vclip(what), "input_hex": vclip(hx(cut))})
 			n++
 		}
+	}
+	// a document with a periodic stretch (xx yy xx yy …) and an input in which one target run equals the
+	// source at two source positions with the same length and the same target start: the order of such
+	// runs (map iteration + unstable sort) must not reach the result — repeated calls and separately
+	// built instances agree
+	{
+		word := func(i int) string {
+			return "q" + string(rune('a'+i/676%26)) + string(rune('a'+i/26%26)) + string(rune('a'+i%26))
+		}
+		const n, k, m, shift = 130, 6, 74, 6
+		rest := n - (k + 2)
+		var sw, tw []string
+		for i := 0; i < (k+2)/2; i++ {
+			sw = append(sw, "xx", "yy")
+		}
+		for i := 0; i < rest; i++ {
+			sw = append(sw, word(i))
+		}
+		for i := 0; i < k/2; i++ {
+			tw = append(tw, "xx", "yy")
+		}
+		tw = append(tw, "junk")
+		for i := 0; i < k/2; i++ {
+			tw = append(tw, "xx", "yy")
+		}
+		for i := 0; i < m; i++ {
+			tw = append(tw, word(i))
+		}
+		for i := 0; i < shift; i++ {
+			tw = append(tw, "zunk")
+		}
+		for i, cnt := m, 0; i < rest; i++ {
+			if rest-i > shift+2 && cnt == 4 {
+				tw = append(tw, "err")
+				cnt = 0
+				continue
+			}
+			tw = append(tw, word(i))
+			cnt++
+		}
+		src, in := []byte(strings.Join(sw, " ")), []byte(strings.Join(tw, " "))
+		cp := NewClassifier(0.8)
+		cp.AddContent("License", "Periodic", "license.txt", src)
+		first := vshowResults(cp.Match(in))
+		what := ""
+		for i := 1; i < 60 && what == ""; i++ {
+			if got := vshowResults(cp.Match(in)); got != first {
+				what = fmt.Sprintf("call %d on the same classifier differs from the first: %s vs %s", i, got, first)
+			}
+		}
+		for i := 0; i < 25 && what == ""; i++ {
+			c2 := NewClassifier(0.8)
+			c2.AddContent("License", "Periodic", "license.txt", src)
+			if got := vshowResults(c2.Match(in)); got != first {
+				what = fmt.Sprintf("separately built classifier #%d differs: %s vs %s", i, got, first)
+			}
+		}
+		o.verdict("C04", "hist_periodic", what == "", true, "hist_periodic", map[string]interface{}{"what": vclip(what), "input_hex": vclip(hx(in))})
+		o.corr("xproc:match", "periodic", []string{vhash(in)}, first)
 	}
 	// AddContent must not modify its argument
 	b := []byte("Some License text HERE\nwith — dashes and &amp; entities\n")
@@ -916,7 +976,7 @@ func TestVerifC07(t *testing.T) {
 	defer o.close()
 	r := newVrand(vseed() + 61)
 	c := vdefault()
-	n := 32
+	n := 48
 	if vthorough() {
 		n = 800
 	}
@@ -930,26 +990,28 @@ func TestVerifC07(t *testing.T) {
 		case 0:
 			X = d.data
 		case 7:
-			// exactly on the threshold: the first (odd i: the last) int(0.8*n) words of the text
-			ws := strings.Fields(string(d.data))
-			keep := int(0.8 * float64(len(c.createTargetIndexedDocument(d.data).Tokens)))
-			if keep < len(ws) && keep > 0 {
-				if (i/8)%2 == 0 {
-					ws = ws[:keep]
-				} else {
-					ws = ws[len(ws)-keep:]
+			// exactly on the threshold: the shortest prefix of the text (cut at white space) that holds
+			// int(0.8*n) of the document's n tokens
+			// (a document whose token count is a multiple of 5, so that 0.8*n is a whole number and the
+			// truncated text scores exactly 0.8)
+			for k := 0; k < len(vcorpus); k++ {
+				cand := vcorpus[(i*37+k)%len(vcorpus)]
+				if nt := len(c.createTargetIndexedDocument(cand.data).Tokens); nt%5 == 0 && nt >= 50 && nt <= 2500 {
+					d = cand
+					break
 				}
 			}
-			var sb strings.Builder
-			for j, w := range ws {
-				sb.WriteString(w)
-				if j%9 == 8 {
-					sb.WriteByte('\n')
-				} else {
-					sb.WriteByte(' ')
+			full := len(c.createTargetIndexedDocument(d.data).Tokens)
+			keep := int(0.8 * float64(full))
+			X = d.data
+			for p := 0; p < len(d.data) && keep > 0; p++ {
+				if d.data[p] == ' ' || d.data[p] == '\n' {
+					if len(c.createTargetIndexedDocument(d.data[:p]).Tokens) >= keep {
+						X = append([]byte(nil), d.data[:p]...)
+						break
+					}
 				}
 			}
-			X = []byte(sb.String())
 		case 5, 6:
 			// partial: the first words are missing (5), a block of words inside is missing (6)
 			ws := strings.Fields(string(d.data))
@@ -1019,6 +1081,44 @@ func TestVerifC07(t *testing.T) {
 			}
 			o.verdictSigCorr("C07", fmt.Sprintf("%d_%d", i, pi), what == "", len(base.Matches) > 0, fmt.Sprintf("pos:%s:%d", vhash(X), pi), sig, needs, map[string]interface{}{"what": vclip(what), "doc": vkey(d), "kind": i % 8, "x_hex": vclip(hx(X)), "prefix_lines": pl})
 			cnt++
+		}
+	}
+	// exactly on the threshold: user documents of n distinct words (n a multiple of 5) with the first or
+	// the last 0.8*n words kept, after a prefix and with NOTHING behind it (the last token of the input
+	// is the last token of X), and with a few words behind it
+	{
+		cs := NewClassifier(0.8)
+		mk := func(n int) string {
+			var ws []string
+			for k := 0; k < n; k++ {
+				ws = append(ws, "syn"+string(rune('a'+k/26))+string(rune('a'+k%26)))
+				if k%10 == 9 {
+					ws[len(ws)-1] += "\n"
+				}
+			}
+			return strings.ReplaceAll(strings.Join(ws, " "), "\n ", "\n")
+		}
+		for _, n := range []int{100, 60, 145} {
+			cs.AddContent("License", fmt.Sprintf("OnThreshold-%d", n), "a.txt", []byte(mk(n)))
+		}
+		for _, n := range []int{100, 60, 145} {
+			ws := strings.Fields(mk(n))
+			for vi, w := range [][]string{ws[:n*4/5], ws[n/5:]} {
+				X := []byte(strings.Join(w, " ") + "\n")
+				base := cs.Match(X)
+				for pi, pad := range [][2]string{{voovBlock(r, 3), ""}, {voovBlock(r, 13), ""}, {voovLine(r, 6) + "\n", voovLine(r, 1) + "\n"}, {voovBlock(r, 2), voovBlock(r, 2)}} {
+					data := append(append([]byte(pad[0]), X...), []byte(pad[1])...)
+					got := cs.Match(data)
+					pl := strings.Count(pad[0], "\n")
+					dt := len(cs.createTargetIndexedDocument([]byte(pad[0])).Tokens)
+					what := ""
+					if vshift(base, pl, dt) != vshift(got, 0, 0) {
+						what = fmt.Sprintf("X alone: %s ; embedded after %d lines/%d words: %s", vshift(base, pl, dt), pl, dt, vshift(got, 0, 0))
+					}
+					o.verdict("C07", fmt.Sprintf("thr%d_%d_%d", n, vi, pi), what == "", len(base.Matches) > 0, fmt.Sprintf("thr:%d:%d:%d", n, vi, pi), map[string]interface{}{"what": vclip(what), "x_hex": vclip(hx(X)), "prefix_lines": pl})
+					cnt++
+				}
+			}
 		}
 	}
 	o.stat("C07", map[string]interface{}{"comparisons": cnt})
@@ -1153,6 +1253,13 @@ func TestVerifC08(t *testing.T) {
 	// alive at about every second byte, so it is alive at the buffer boundaries for most pads
 	for _, d := range vnamed("License/Apache-2.0/a.txt", "License/MIT/a.txt") {
 		inputs = append(inputs, vinput{id: "mbhy_" + d.name, data: vdenseHyphen(d.data, 3, "")})
+	}
+	// typographic dashes where they matter: every long word split with U+2014 + newline (hyphen join) and
+	// date lines written with U+2010, so that a 3-byte character sits near every buffer boundary
+	for _, d := range vnamed("License/Apache-2.0/a.txt", "License/MIT/a.txt") {
+		t := strings.ReplaceAll(string(vdenseHyphen(d.data, 3, "")), "-\n", "\u2014\n")
+		t = strings.ReplaceAll(t, "\n\n", "\n2020\u201001\u201002\n\n")
+		inputs = append(inputs, vinput{id: "mbdash_" + d.name, data: []byte(t)})
 	}
 	// total lengths that fill the read buffer exactly on the last read (1024 + k*1020 bytes), the text
 	// ending in a word: a reader that hands over its last bytes together with io.EOF then makes
@@ -1380,6 +1487,10 @@ func TestVerifC10(t *testing.T) {
 	for i, s := range []string{"Copyright (c) 2020 Foo\n", "// Copyright 2019 Foo Inc.", "2020-01-31\n", "Copyright 2001 a\n\n2020-01-31\n---\n"} {
 		inputs = append(inputs, vinput{id: fmt.Sprintf("notice%d", i), data: []byte(s)})
 	}
+	// directed: the texts of the small corpus themselves (they pass every pre-filter at every threshold,
+	// also just below 1 where the q derived from the threshold is astronomically large)
+	inputs = append(inputs, vinput{id: "noticeself0", data: []byte("one two three")}, vinput{id: "noticeself1", data: vcorpus[0].data},
+		vinput{id: "noticeself2", data: append([]byte("zyxqv qwrtzp\n"), vcorpus[0].data...)})
 	// directed: out-of-vocabulary words only (every id 0), alone and after a notice line
 	for i, s := range []string{"foo bar baz", "zzz", "some words\nnobody has ever put\ninto the dictionary", "Copyright 2020 somebody\nqqq www eee rrr", "qq ww ee rr tt yy uu ii oo pp aa ss dd ff gg hh jj kk ll"} {
 		inputs = append(inputs, vinput{id: fmt.Sprintf("noticeoov%d", i), data: []byte(s)})
